@@ -9,17 +9,17 @@ PROPS = {
         rule="(a) TestVerifC11ClosedLoop: C10's history generator with every pod's first interface fixed-IP (TTL >= 5 min or Never); non-trivial as in C10 (recreate / rollback / leave-while-attaching). "
              "(b) TestVerifC11Retention: 1..3 seeded records (phase drawn from all six, 1..3 allocations each Elastic / Fixed TTL / Fixed Never / unset / unknown strategy, releaseAfter valid, unparsable or negative, "
              "podLastSeen = now - D with D in {0..2 s, TTL - m, TTL + m, 10 x TTL, unset}, m in {3,5,10} s, pod absent / alive / exited / terminating, UID matching or not; only reachable states: a record in Detaching/Deleting never carries the UID of a pod that still exists) and 1..8 actions "
-             "(gcCR with optional API fault, pod gone / exit / delete / recreate, ReconcilePod, ReconcilePodENI), in a third of the cases followed by a script [gcCR (pod observed), pod leaves, reconcilers finish the transition to Unbind, gcCR]; non-trivial = a last-seen age within 30 s of a TTL boundary or >= 2 allocations with different strategies. "
+             "(gcCR with optional API fault, pod gone / exit / delete / recreate, ReconcilePod, ReconcilePodENI; a quarter of the gcCR passes have an action interleaved right AFTER the collector took its List snapshot and before it walks it: a whole pod incarnation (recreated, reconciled until Bind, gone, reconciled to Unbind) or a single pod event / reconcile, on a fake client that enforces resourceVersion conflicts), in a third of the cases followed by a script [gcCR (pod observed), pod leaves, reconcilers finish the transition to Unbind, gcCR]; non-trivial = a last-seen age within 30 s of a TTL boundary or >= 2 allocations with different strategies. "
              "(c) TestVerifC11LeakGC: 1..8 interfaces, each starting as reapable (both tags ours, age > 10 min, Secondary/Available or Member/InUse, unreferenced) with 0..2 conditions spoiled "
              "(cluster tag other/absent, creator tag other/absent, age 0 / 30 s / 10 min - m / unparsable, other status, other type, referenced by a seeded record), m in {3,5,20} s, then 1..4 collector passes "
              "(optionally with a cloud or API fault); non-trivial = population with >= 1 reapable and >= 1 protected interface. distinct = distinct scenario hash",
         assumptions=[
             "no clock hook: timestamps are generated relative to the wall clock. Must-keep / must-not-reap assertions are evaluated against the clock read AFTER the step (retention) or AT the monitored cloud call (leak GC): "
             "the code read its clock earlier, so 'lastSeen + TTL > t_after' (resp. 'created + 10 min > t_call') implies the code saw an unexpired TTL (a young interface); a slow machine only widens the undecided window and can never cause a false alarm",
-            "retention reference point = the later of the stored status.podLastSeen (second granularity) and the start of the last fault-free gcCR pass during which the pod existed alive - taken from the harness own pod table, whatever the record phase (Binding/Detaching records are observed too) and whatever the code stored",
+            "a Bind written by ReconcilePodENI counts as an observation of the pod at the start of that reconcile (harness clock); the later of the stored status.podLastSeen (second granularity) and the start of the last fault-free gcCR pass during which the pod existed alive - taken from the harness own pod table, whatever the record phase (Binding/Detaching records are observed too) and whatever the code stored",
             "a fixed-IP record may be given up only by gcCRPodENIs; in the closed loop TTLs are >= 5 min and a case that ran longer than 2 min is discarded as inconclusive",
             "a record referencing an interface in any phase (including Deleting) counts as a reference; an interface with an unparsable creation time is of unknown age and must not be reaped",
-            "a release of a fixed-IP record whose podLastSeen was never set (pod left before the first attach) is accepted (the oracle measures from status.podLastSeen as the property's anchor says); counted under label gc-release:never-seen",
+            "last observation of a pod by the controllers (per pod, never reset) = the latest of: the record's metadata.creationTimestamp (ReconcilePod creates a record only for a pod it has just read; stamped at Create by the API simulation exactly as the API server does, wall clock), the start of the ReconcilePod step that created a record for the live pod, the start of the ReconcilePodENI step that wrote Bind, the start of a fault-free gcCR pass during which the same pod instance was alive, and the stored status.podLastSeen; a fixed-IP record whose podLastSeen is still unset must therefore be kept until its TTL has elapsed since its creation (seeded records with unset podLastSeen carry a drawn creation age around the TTL; a release after that is counted under label gc-release:lastseen-unset-ttl-elapsed-since-creation)",
         ],
         level_text="about 1500 closed-loop histories, 4000 retention populations and 4000 leak-GC populations per quick run (60000 / 250000 / 250000 thorough) against the real collectors; exploration, not proof",
         level_note="TTL and grace boundaries are approached to within 3 s, not hit exactly; Describe filters of the simulator follow the documented ECS semantics (type/status/tag filters are honoured); "
